@@ -2,6 +2,7 @@
 package mon
 
 import (
+	"bytes"
 	"fmt"
 	"reflect"
 	"sort"
@@ -189,6 +190,8 @@ type dataCase struct {
 	// DataPayload items (cut points into Spec.FRMPayload; an item may be empty).
 	// FRM stays the canonical single-item view that decoders produce.
 	Cuts []int
+	// SameItemTwice: the payload is one *DataPayload listed twice (the same pointer in two positions).
+	SameItemTwice bool
 }
 
 type dataGenOpts struct {
@@ -328,9 +331,13 @@ func genDataCase(r *core.RNG, o dataGenOpts) dataCase {
 			if r.Chance(1, 6) {
 				b[0] = []byte{0x00, 0x02, 0x03, 0x06, 0x0d, 0x80, 0xe0, 0xff}[r.Intn(8)] // first bytes that mean something to another layer
 			}
+			if 2*n <= maxFRM && r.Chance(1, 16) {
+				b = append(append([]byte{}, b...), b...)
+				d.SameItemTwice = true
+			}
 			d.Spec.FRMPayload = b
 			d.FRM = []lorawan.Payload{&lorawan.DataPayload{Bytes: append([]byte{}, b...)}}
-			if r.Chance(1, 6) {
+			if !d.SameItemTwice && r.Chance(1, 6) {
 				for k := 1 + r.Intn(3); k > 0; k-- {
 					d.Cuts = append(d.Cuts, r.Intn(n+1))
 				}
@@ -389,6 +396,12 @@ func (d dataCase) Lib() lorawan.PHYPayload {
 				mp.FRMPayload = []lorawan.Payload{&lorawan.DataPayload{Bytes: []byte{}}}
 			}
 		}
+	}
+	if n := len(d.Spec.FRMPayload); d.SameItemTwice && !d.FRMIsMAC && n%2 == 0 && bytes.Equal(d.Spec.FRMPayload[:n/2], d.Spec.FRMPayload[n/2:]) {
+		// (a monitor that perturbed the payload afterwards has broken the "two equal halves" shape: then the other shapes apply)
+		half := &lorawan.DataPayload{Bytes: append([]byte{}, d.Spec.FRMPayload[:len(d.Spec.FRMPayload)/2]...)}
+		mp.FRMPayload = []lorawan.Payload{half, half}
+		return lorawan.PHYPayload{MHDR: lorawan.MHDR{MType: lorawan.MType(d.Spec.MType), Major: lorawan.Major(d.Spec.Major)}, MACPayload: mp}
 	}
 	// an application payload of a caller-defined Payload type instead of *DataPayload
 	if !d.FRMIsMAC && len(d.Spec.FRMPayload) > 0 && len(d.Cuts) == 0 && d.Spec.FCnt%7 == 3 {
